@@ -11,7 +11,8 @@ from .extract import Extractor, Unsupported
 from .codec import canon, val_to_json, exc_name
 from .sym import SymWorld
 
-KEYS = ['a', 'b', 'c', 'd', -1, -2, 0, 1, 2, True, False]     # True == 1, False == 0: distinct disk digests, equal RAM keys (F3)
+KEYS = ['a', 'b', 'c', 'd', -1, -2, 0, 1, 2, True, False,     # True == 1, False == 0: distinct disk digests, equal RAM keys (F3)
+        {'app': ['$path', ['a'], [], []]}, {'app': ['$bytes', ['a'], [], []]}, 'a']     # a path / bytes that spell the id 'a': other keys
 
 
 def gen_pipeline(rng, n_roots=1):
